@@ -276,6 +276,7 @@ CHECKS["C14"] = {
         {"part": "buffered", "pkg": "./provider/buffered/", "test": "TestVerif_C14_Buffered", "quick": 600, "thorough": 10000},
         {"part": "records", "pkg": "./records/", "test": "TestVerif_C14_Records", "quick": 400, "thorough": 6000},
         {"part": "keystore", "pkg": "./provider/keystore/", "test": "TestVerif_C14_Keystore", "quick": 400, "thorough": 6000},
+        {"part": "sweeping-provider", "pkg": "./provider/", "test": "TestVerif_C14_SweepingProvider", "quick": 60, "thorough": 1600},
         {"part": "dual", "pkg": "./dual/", "test": "TestVerif_C14_Dual", "quick": 300, "thorough": 3000},
     ],
 }
